@@ -33,7 +33,8 @@ def make(o):
   sk = sketchy.Options(epsilon=o.get("sk_eps", 1e-7), rank=o.get("rank", 2),
                        relative_epsilon=o.get("sk_rel", True),
                        second_moment_decay=o.get("decay", 1.0),
-                       update_freq=o.get("SF", 1)) if so == "sketchy" else None
+                       update_freq=o.get("SF", 1), ekfac_svd=o.get("ekfac", False),
+                       add_ggt=o.get("add_ggt", False)) if so == "sketchy" else None
   soo = second_order.Options(
       merge_dims=o.get("merge_dims", 1024),
       second_order_type=(second_order.SecondOrderType.SKETCHY if so == "sketchy"
@@ -89,7 +90,11 @@ class Runner:
       else:
         out["params"][n] = {"axes": [{k: np.asarray(getattr(a, k)) for k in
                                       ("eigvecs", "eigvals", "inv_eigvals", "tail", "inv_tail")}
-                                     for a in node.axes]}
+                                     for a in node.axes],
+                            "svd": [b"".join(np.asarray(getattr(a, k)).tobytes()
+                                             for k in ("svd_result_u", "svd_result_s", "inv_prev_tail")
+                                             if hasattr(getattr(a, k), "shape"))
+                                    for a in node.axes]}
     return out
 
 
